@@ -35,8 +35,14 @@ AffRawJunk(g, P) == <<RawF(g, EmbG(g, Rnd(5))), RawF(g, EmbG(g, Rnd(6))), 1>>  \
 
 \* for G2 also z in the base field (2, -1: imaginary part zero) and z with real part one (1 + c u): "z = 1" tested on one coordinate only
 ZSub(g) == IF g = 1 THEN {} ELSE { <<Two, Zero>>, <<Sub(Q, One), Zero>>, <<One, Rnd(13)>> }
-ZReps(g) == IF Tier = "quick" THEN { FOneG(g), EmbG(g, Sub(Q, One)), EmbG(g, Rnd(11)) } \cup ZSub(g)
-            ELSE { FOneG(g), EmbG(g, Two), EmbG(g, Sub(Q, One)), EmbG(g, Rnd(11)), EmbG(g, Rnd(12)) } \cup ZSub(g)
+\* z values whose STORED form (the Montgomery residue) is sparse: only words above bit 192 set, resp. only the low word - "z is zero" and
+\* "z is one" are decided over all the words of every coordinate
+St(v) == FqF!Val(v)                                            \* the field value whose stored form is v
+ZSparse(g) == IF g = 1 THEN { St(Pow2(320)), St(Add(Pow2(192), Pow2(380))), St(FromNat(3)) }
+              ELSE { <<St(Pow2(320)), St(Add(Pow2(192), Pow2(380)))>>, <<Zero, St(Pow2(320))>>, <<St(Pow2(256)), Zero>> }
+ZSparseQ(g) == IF g = 1 THEN { St(Pow2(320)) } ELSE { <<St(Pow2(320)), St(Add(Pow2(192), Pow2(380)))>> }
+ZReps(g) == IF Tier = "quick" THEN { FOneG(g), EmbG(g, Sub(Q, One)), EmbG(g, Rnd(11)) } \cup ZSub(g) \cup ZSparseQ(g)
+            ELSE { FOneG(g), EmbG(g, Two), EmbG(g, Sub(Q, One)), EmbG(g, Rnd(11)), EmbG(g, Rnd(12)) } \cup ZSub(g) \cup ZSparse(g)
 OReps(g) == { <<FZeroG(g), FOneG(g)>>, <<EmbG(g, Rnd(21)), EmbG(g, Rnd(22))>> }
 Reps(g, P) == IF P = <<>> THEN { JacRaw(g, P, xy) : xy \in OReps(g) } ELSE { JacRaw(g, P, z) : z \in ZReps(g) }
 AffReps(g, P) == IF P = <<>> THEN { AffRaw(g, P), AffRawJunk(g, P) } ELSE { AffRaw(g, P) }
@@ -133,9 +139,19 @@ Bases(g) == LET T == SMul(g, FromNat(1234567), Gen(g)) IN
     [affine |-> 1, base |-> AffRaw(g, T), sub |-> 1],
     [affine |-> 0, base |-> JacRaw(g, NonSub(g), EmbG(g, Rnd(32))), sub |-> 0] }
 
+\* the identity as base, in every form a caller can hold it: the affine record (canonical and with arbitrary coordinates under the flag),
+\* the Jacobian record (z = 0 with canonical and with arbitrary x, y)
+IdBases(g) == { [affine |-> 1, base |-> AffRaw(g, <<>>)], [affine |-> 1, base |-> AffRawJunk(g, <<>>)] }
+              \cup { [affine |-> 0, base |-> JacRaw(g, <<>>, xy)] : xy \in OReps(g) }
+IdScalars(bits) == { s \in { Zero, One, Two, FromNat(3), Sub(RMod, One), Sub(Pow2(bits), One), ModPow2(Rnd(901), bits) } : Lt(s, Pow2(bits)) }
 ScalarCases(g) ==
   SetToSeq({ [op |-> "mul.fast", g |-> g, base |-> b.base, affine |-> b.affine, k |-> Pad(s, 32), alias |-> al, api |-> api, src |-> "gen"] :
              b \in { bb \in Bases(g) : bb.sub = 1 }, s \in Scalars(256), al \in {0, 1}, api \in Apis })
+  \o SetToSeq({ [op |-> "mul.fast", g |-> g, base |-> b.base, affine |-> b.affine, k |-> Pad(s, 32), alias |-> al, api |-> api, cls |-> "identity-base", src |-> "gen"] :
+             b \in IdBases(g), s \in IdScalars(256), al \in {0, 1}, api \in Apis })
+  \o SetToSeq(UNION { { [op |-> "mul.gen", g |-> g, routine |-> rt, bits |-> bits, base |-> b.base, affine |-> b.affine, k |-> Pad(s, bits \div 8), alias |-> 0, api |-> "cpp",
+                          cls |-> "identity-base", src |-> "gen"] :
+             rt \in {"wnaf", "wnaf_s", "doubleadd", "table", "multiply"}, b \in IdBases(g), s \in IdScalars(bits) } : bits \in {128, 256} })
   \o SetToSeq(UNION { { [op |-> "mul.gen", g |-> g, routine |-> rt, bits |-> bits, base |-> b.base, affine |-> b.affine, k |-> Pad(s, bits \div 8), alias |-> 0, api |-> "cpp", src |-> "gen"] :
              rt \in {"wnaf", "wnaf_s", "doubleadd", "table", "multiply"},
              b \in { bb \in Bases(g) : Tier # "quick" \/ bb.affine = 0 }, s \in Scalars(bits) } : bits \in {64, 128, 256, 512} })
